@@ -16,7 +16,7 @@ c12 = importlib.import_module('props.c12')
 POLCODE = {'simple': 0, 'quoted': 1, 'quoted_rfc': 2, 'whitespace': 3, 'monocolumn': 4}
 IN_CFG = [('simple', ','), ('quoted', ','), ('quoted_rfc', ','), ('quoted', ';'), ('whitespace', ' '), ('monocolumn', ''), ('simple', '::')]
 OUT_CFG = [('simple', ','), ('simple', ';'), ('quoted', ','), ('quoted_rfc', ','), ('simple', '\t'), ('quoted', '::'), ('monocolumn', '')]
-QUERIES = [('select *', 'select *', 'star'), ('select *, None', 'select *, null', 'star_none'), ('select [a1, None], NR', 'select [a1, null], NR', 'list_none'), ("select 'x'", "select 'x'", 'const')]
+QUERIES = [('select *', 'select *', 'star'), ('select *, None', 'select *, null', 'star_none'), ('select [a1, None], NR', 'select [a1, null], NR', 'list_none'), ("select 'x'", "select 'x'", 'const'), ('select NR', 'select NR', 'nr')]
 INVALID = [[0x61, 0x2C, 0xC3], [0xC3, 0x28, 0x0A], [0x61, 0x0A, 0xE2, 0x82], [0xFF, 0x0A, 0x61], [0xED, 0xA0, 0x80], [0x80, 0x0A], [0x61, 0x2C, 0x62, 0x0A, 0xF0, 0x9D, 0x84],
            [0xF0, 0x9F, 0x98], [0x61, 0x0A, 0xF0, 0x9F, 0x98, 0x0A], [0xE2, 0x82, 0x2C, 0x61], [0xF0, 0x9F, 0x98, 0x2C, 0xF0, 0x9F, 0x98]]      # incl. characters cut after their last-but-one byte
 
@@ -31,7 +31,7 @@ def gen_cases(ctx):
         out_pol, out_dlm = r.choice(OUT_CFG)
         q, qjs, qk = r.choice(QUERIES[:3])
         if out_pol == 'monocolumn':
-            q, qjs, qk = QUERIES[3]
+            q, qjs, qk = r.choice(QUERIES[3:])            # one output column; with NR a NUMBER is the single field
         enc = r.choice(['utf-8', 'utf-8', 'latin-1'])
         text = ''.join(r.choice(toks) for _ in range(r.randint(0, 10)))
         if r.random() < 0.25:
@@ -81,6 +81,8 @@ def expected(cases):
             rows = [r + [None] for r in recs]
         elif c['qk'] == 'list_none':
             rows = [[[(r[0] if r else None), None], k + 1] for k, r in enumerate(recs)]      # a None INSIDE a list cell is a None written too
+        elif c['qk'] == 'nr':
+            rows = [[k + 1] for k, _r in enumerate(recs)]
         else:
             rows = [['x'] for _ in recs]
         for impl in ('py', 'js'):
